@@ -324,6 +324,16 @@ func streamC14(env *runEnv) {
 		}
 		jobs = append(jobs, job{db: loaded, spec: want, ops: []nop{{sess: sessA, kind: "neg"}, {sess: sessA, kind: "auth", user: "", pw: "s3cret", from: 1}}})
 	}
+	// (a5) many other clients have started an exchange and not finished it; a client with the configured
+	// password on a fresh session is served all the same
+	for _, others := range []int{100, 300} {
+		var ops []nop
+		for k := 0; k < others; k++ {
+			ops = append(ops, nop{sess: fmt.Sprintf("198.51.100.%d:%d", k%250, 40000+k), kind: "neg"})
+		}
+		ops = append(ops, nop{sess: sessC, kind: "neg"}, nop{sess: sessC, kind: "auth", user: "alice", pw: "wonderland", from: len(ops) + 1})
+		jobs = append(jobs, job{db: dbs[1], ops: ops})
+	}
 	// (a3) many rejected proofs for a user, from several sessions, then the configured password in a fresh session
 	for _, fails := range []int{4, 5, 6, 12} {
 		var ops []nop
